@@ -69,6 +69,9 @@ impl<'db> Ambiguity<'db> {
                 if !impl_paths.iter().all_unique() {
                     impl_paths = impls.iter().map(|imp| imp.format(db)).collect_vec();
                 }
+                // The order in which the candidates were found depends on interning order, i.e. on
+                // what was computed before; the message must not.
+                impl_paths.sort();
                 format!(
                     "Trait `{}` has multiple implementations, in: {}",
                     concrete_trait_id.contextualized_path(db, context_module),
